@@ -161,6 +161,23 @@ def dtest_task(task):
                        (ta, core.shq(argv), r.out[:80], r.rc, {0: "equal to", 1: "later than", -1: "earlier than"}[want],
                         "must" if f(want) else "must not"),
                        dict(argv=argv, stdin=ta, expected_selected=bool(f(want)), observed=r.out.decode("latin-1")), cls=c)
+        # ... and one of them negated, as an expression: A is selected iff not (A op B)
+        for op, f in ([opl[(n_ * 5 + 1) % len(opl)]] if want else opl[:6]) if kind not in ("mil", "epoch", "ldn") else []:
+            sym = {"--lt": "<", "--le": "<=", "--gt": ">", "--ge": ">=", "--eq": "=", "--ne": "!=", "--ot": "<", "--nt": ">"}[op]
+            argv = [str(bindir / "dgrep")] + (["-i", ifmt] if ifmt else []) + ["--", "!(%s%s)" % (sym, tb)]
+            r = run(argv, stdin=(ta + "\n").encode(), cpu=5, wall=60)
+            sh.procs += 1
+            if not sh.check_san(r, "san", "dgrep-op:%s:san" % kind):
+                sel = r.out.strip() != b""
+                c = ("dgrep-not", kind, sym, "eq" if want == 0 else "ne")
+                if r.rc in (0, 1) and sel == (not f(want)):
+                    sh.ok("dtest", c)
+                else:
+                    sh.bad("dtest", "dgrep-not:%s:%s:%s" % (kind, sym, "eq" if want == 0 else "ne"),
+                           "echo %s | %s -> %r (rc %s), the line is %s B so it %s be selected" %
+                           (ta, core.shq(argv), r.out[:80], r.rc, {0: "equal to", 1: "later than", -1: "earlier than"}[want],
+                            "must not" if f(want) else "must"),
+                           dict(argv=argv, stdin=ta, expected_selected=not f(want), observed=r.out.decode("latin-1")), cls=c)
         for op, f in list(OPS.items()) + [("--cmp", None)]:
             argv = [str(bindir / "dtest")] + (["-i", ifmt] if ifmt else []) + [ta, op, tb]
             r = run(argv, cpu=5, wall=60)
